@@ -1,0 +1,21 @@
+//go:build verif
+
+package serveruser
+
+import "github.com/enfein/mieru/v3/pkg/cipher"
+
+// VerifDiscover is Discover with the seam the package's own tests use:
+// afterAttempt runs after each attempt on a user generation, before Discover
+// checks whether that generation is still the published one.
+func (r *Registry) VerifDiscover(encryptedMetadata []byte, source Source, requireCurrent bool, afterAttempt func()) (cipher.BlockCipher, []byte, Authentication, error) {
+	result, err := discoverUser(&r.users, &r.hintMandatory, encryptedMetadata, source, requireCurrent, func(*state) {
+		if afterAttempt != nil {
+			afterAttempt()
+		}
+	})
+	if err != nil {
+		return nil, nil, Authentication{}, err
+	}
+	result.block.SetBlockContext(result.userContext)
+	return result.block, result.decryptedMetadata, result.authentication(source), nil
+}
